@@ -41,6 +41,7 @@ EXACT = ("int", "Decimal", "str", "bytes", "list", "tuple", "MyInt", "MyStr")
 def spec_universe(tier):
     specs = tg.lax_specs(routes=("cls", "ann") if tier == "thorough" else ("cls",))
     specs += tg.leaf_specs()
+    specs += tg.mixed_specs(routes=("cls", "ann") if tier == "thorough" else ("cls",))
     specs += tg.constrained_specs(routes=("cls",))
     specs += tg.literal_specs()
     specs += tg.SHIPPED
@@ -130,7 +131,8 @@ def run_shard(shard, tier):
                         acc.evaluations += 1
                         if st != "ok":
                             acc.outcomes["second:" + ("perr" if isinstance(z, e1.ParseError) else "other")] += 1
-                            fp = f"C03|{S.shape(sp)}|{form}|reparse-fails-{how}:{_errkind(z)}|{_vs(vx)}|{_optkey(opts)}"
+                            fp = (f"C03|{S.shape(sp)}|{form}|reparse-fails-{how}:{_errkind(z)}{_logic_class(sp, opts, vx, y0)}"
+                                  f"|{_vs(vx)}|{_optkey(opts)}")
                             acc.violation(fp, f"{S.type_expr(sp)} form={form} opts={opts}: input {vx} parses to {short(y0, 60)} "
                                               f"but re-parsing that result ({how}) fails: {short(z, 100)}",
                                           _script(sp, form, opts, vx, how))
@@ -139,7 +141,8 @@ def run_shard(shard, tier):
                         cz = canon(zs[0]) if zs else ("missing",)
                         acc.outcomes["second:value"] += 1
                         if cz != cy and not _py_equal(zs[0] if zs else None, y0):
-                            fp = f"C03|{S.shape(sp)}|{form}|not-idempotent-{how}|{_vs(vx)}|{_optkey(opts)}"
+                            fp = (f"C03|{S.shape(sp)}|{form}|not-idempotent-{how}{_drift_class(sp, y0, zs[0] if zs else None, opts, vx)}"
+                                  f"|{_vs(vx)}|{_optkey(opts)}")
                             acc.violation(fp, f"{S.type_expr(sp)} form={form} opts={opts}: {vx} -> {short(y0, 60)} -> "
                                               f"{short(zs[0] if zs else None, 60)} (second parse changed the value)",
                                           _script(sp, form, opts, vx, how))
@@ -167,6 +170,74 @@ def run_shard(shard, tier):
                         acc.sample(dict(decl=S.type_expr(sp), form=form, options=opts, input=vx, first=short(y0, 50)))
         e1.reset_callers()
     return acc
+
+
+def _accepts(arm, opts, value):
+    try:
+        fn, _, _ = e1.caller(arm, "tt", opts)
+        st, r = e1.call_guarded(lambda: fn(value), wall_s=1.0, step_budget=400_000)
+        return st == "ok", r
+    except Exception:
+        return False, None
+
+
+def _logic_class(sp, opts, vx, y):
+    """Sub-classification of a failing re-parse of a top-level ^ / & type, with the arguments as black boxes.
+    ^ : P = first argument that accepts the input; the output is accepted by P and by another argument that comes
+        *earlier* (its turn was over before the value was converted) or *later* than P.
+    & : the output is rejected by an argument *before the last* (the documented sequential semantics) or by the last."""
+    if sp[0] != "op" or sp[1] not in "^&":
+        return ""
+    args = sp[2]
+    try:
+        if sp[1] == "^":
+            first = None
+            for i, a in enumerate(args):
+                ok, _ = _accepts(a, opts, ev(vx))
+                if ok:
+                    first = i
+                    break
+            if first is None:
+                return "@xor-no-argument-accepts-input"
+            others = [i for i, a in enumerate(args) if i != first and _accepts(a, opts, y)[0]]
+            if any(i > first for i in others):
+                return "@xor-later-argument-accepts-output"
+            if others:
+                return "@xor-earlier-argument-accepts-output"
+            return "@xor-output-accepted-once"
+        rej = [i for i, a in enumerate(args) if not _accepts(a, opts, y)[0]]
+        if rej and rej[-1] == len(args) - 1:
+            return "@and-last-argument-rejects-output"
+        if rej:
+            return "@and-earlier-argument-rejects-output"
+        # every argument accepts the output on its own, the chain of conversions does not
+        return "@and-chain-rejects-output"
+    except Exception as e:      # classification must never break the run
+        return f"@unclassified-{type(e).__name__}"
+
+
+def _drift_class(sp, y, z, opts, vx):
+    """second parse succeeded with a different value: sub-classification for top-level | ^ & types"""
+    if sp[0] == "op" and sp[1] == "^":
+        return _logic_class(sp, opts, vx, y)
+    if sp[0] == "op" and sp[1] == "&":
+        # the chain of conversions is applied again to the output of its last argument
+        return "@and-chain-reconverts-output"
+    args = None
+    if sp[0] == "op" and sp[1] == "|":
+        args = sp[2]
+    elif sp[0] == "g" and sp[1] in ("Union", "Optional"):
+        args = sp[2] if sp[1] == "Union" else (sp[2][0], ("t", "NoneType"))
+    if not args:
+        return ""
+    try:
+        prod = [i for i, a in enumerate(args) if S.conforms(a, y)]
+        capt = [i for i, a in enumerate(args) if S.conforms(a, z)]
+        if prod and capt and capt[0] < prod[0]:
+            return "@union-earlier-argument-converts-output"
+        return "@union-other"
+    except Exception as e:
+        return f"@unclassified-{type(e).__name__}"
 
 
 def _nonfinite(v):
